@@ -12,7 +12,8 @@ def opTable : List (String × String × Nat) := [
   ("join", "⋈", 6), ("ljoin", "⟕", 6), ("rjoin", "⟖", 6), ("fjoin", "⟗", 6), ("semi", "⋉", 6), ("anti", "▷", 6),
   ("union", "∪", 7), ("inter", "∩", 7), ("diff", "∖", 7), ("symdiff", "Δ", 7), ("subset", "⊆", 7), ("superset", "⊇", 7),
   ("psubset", "⊊", 7), ("psuperset", "⊋", 7), ("elem", "∈", 7), ("notelem", "∉", 7),
-  ("matmul", "**", 4), ("dot", "·", 4), ("cross", "⨯", 4), ("solve", "\\", 4)]
+  ("matmul", "**", 4), ("dot", "·", 4), ("cross", "⨯", 4), ("solve", "\\", 4),
+  ("seq", "=:=", 2), ("sne", "=!=", 2)]
 
 def opOf (name : String) : Option Op :=
   match opTable.findIdx? (fun e => e.1 == name) with
